@@ -105,7 +105,7 @@ class CmsModel:
     def __init__(self, w, d, hf):
         from probables.hashes import default_fnv_1a
         self.w, self.d = w, d
-        self.hf = hf or default_fnv_1a
+        self.hf = hf if hf is not None else default_fnv_1a
         self.cells = [0] * (w * d)
         self.total = 0
         self.hit = False
